@@ -170,11 +170,13 @@ func Alphabet(k reflect.Kind) []interface{} {
 	case reflect.Float32:
 		return []interface{}{float32(0), float32(math.Copysign(0, -1)), float32(1), float32(-1),
 			float32(math.Inf(1)), float32(math.Inf(-1)), float32(math.NaN()), math.Float32frombits(0x7fc00001),
-			float32(math.MaxFloat32), math.Float32frombits(1)}
+			float32(math.MaxFloat32), math.Float32frombits(1),
+			math.Float32frombits(0x7fa00001), math.Float32frombits(0xff800001)} // signalling NaNs
 	case reflect.Float64:
 		return []interface{}{float64(0), math.Copysign(0, -1), float64(1), float64(-1),
 			math.Inf(1), math.Inf(-1), math.NaN(), math.Float64frombits(0x7ff8000000000001),
-			math.MaxFloat64, math.Float64frombits(1)}
+			math.MaxFloat64, math.Float64frombits(1),
+			math.Float64frombits(0x7ff0000000000001), math.Float64frombits(0xfff4000000000000)} // signalling NaNs
 	case reflect.Bool:
 		return []interface{}{false, true}
 	case reflect.String:
